@@ -29,15 +29,27 @@ def _z3_check(smt2, timeout_ms, want_model):
         # z3's sequence solver occasionally answers sat with an assignment that does not satisfy the
         # query (uninterpreted functions over strings).  A model that falsifies a quantifier-free
         # assertion is no counterexample: report `unknown` and let cvc5 decide.
+        unvalidated = False
         try:
             for a in s.assertions():
                 if _has_quant(z3, a):
                     continue
-                v = m.eval(a, model_completion=True)
+                v = z3.simplify(m.eval(a, model_completion=True))
                 if z3.is_false(v):
                     return 'unknown', 'z3 sat with a model that falsifies an assertion (spurious)', None
+                if not z3.is_true(v):
+                    unvalidated = True        # e.g. a regular-expression membership the evaluator cannot decide
         except z3.Z3Exception:
-            pass
+            unvalidated = True
+        if unvalidated:
+            model = {}
+            for d in m.decls():
+                if d.arity() == 0:
+                    try:
+                        model[d.name()] = m[d].sexpr()
+                    except Exception:
+                        pass
+            return 'sat?', 'z3 sat, model not fully validated', model
         if want_model:
             for d in m.decls():
                 if d.arity() == 0:
@@ -102,7 +114,17 @@ def solve_one(job):
     res, reason, model = _z3_check(smt2, t_z3, True)
     backend = 'z3'
     agree = None
-    if res in ('unknown', 'error') and t_cvc5 > 0:
+    if res == 'sat?':
+        # z3 reports a counterexample it cannot fully evaluate (strings / regular expressions): cvc5 decides
+        z3_model = model
+        r2, reason2, model2 = _cvc5_check(smt2, t_cvc5 or 20000, True)
+        if r2 == 'unsat':
+            res, reason, model, backend = 'unsat', 'z3 reported an unvalidated model; cvc5 proves unsat', None, 'cvc5'
+        elif r2 == 'sat':
+            res, reason, model, backend = 'sat', '', model2 or z3_model, 'cvc5'
+        else:
+            res, reason, model = 'unknown', 'z3: unvalidated sat; cvc5: %s' % reason2, None
+    if res in ('unknown', 'error') and t_cvc5 > 0 and backend == 'z3' and 'unvalidated' not in (reason or ''):
         r2, reason2, model2 = _cvc5_check(smt2, t_cvc5, True)
         if r2 in ('sat', 'unsat'):
             res, reason, model, backend = r2, reason2, model2, 'cvc5'
